@@ -6,7 +6,7 @@
      - every derived field of every layer is right    lengths, header lengths, checksums, FCS, markers (Stack2, `ok`)
      - Ethernet frames are zero-padded to the minimum *)
 EXTENDS TraceIO, Stack2
-CONSTANT Prop      \* "C05": derived fields;  "C02": serialization is total, size-exact and layers never overwrite each other
+CONSTANT Prop      \* "C12": a clone serialises like its source;  "C05": derived fields;  "C02": serialization is total, size-exact and layers never overwrite each other
 VARIABLE dummy
 vars == <<ex, l, dummy>>
 Init == \E s \in Starts : TraceInit(s) /\ dummy = 0
@@ -21,8 +21,9 @@ C02Cat(e) == /\ e.thrown = ""                                  \* "serialize() s
              /\ e.size = SumSizes(e.hs)                         \*  size() being the sum of all layers' header and trailer sizes"
              /\ e.overwrite = << >>                             \* "each layer writes only inside its own header and trailer regions"
              /\ e.again_same                                    \* (and doing it again gives the same bytes)
+C12Cat(e) == e.thrown = "" /\ e.clone_same                    \* "A copy or clone is ... equal to its source ... same ... serialization"
 Cat == /\ IsEvent("cat")
-       /\ (IF Prop = "C02" THEN C02Cat(Ev) ELSE C05Cat(Ev))
+       /\ (IF Prop = "C02" THEN C02Cat(Ev) ELSE IF Prop = "C12" THEN C12Cat(Ev) ELSE C05Cat(Ev))
        /\ UNCHANGED dummy
 Next == Cat
 Spec == Init /\ [][Next]_vars
